@@ -10,6 +10,7 @@ C03.once       each decrypt handler delivers exactly once, a stanza that carries
 C03.skdm       both recvMessageStanza implementations look at the payload before delivering (a payload that only
                carries a sender-key distribution must not surface)
 C03.persist    (C13.commit adopted) every key-store write is committed when the store call returns: restarts between messages
+C03.state      sent queue, parked stanzas, retry counters are per layer instance (bound by the constructors)
 C03.map        the manager maps each library exception to the same-named exception the layer handles; unpads on request
 """
 import ast
@@ -215,7 +216,14 @@ def rule_requeue(ctx):
 
     for queued in (True, False):
         try:
-            cells = enumerate_cells(lambda c, d: run(c, d, queued), {}, max_cells=200)
+            # the cells of (participant present?, receipt type) come from the property, not from what the code happens to
+            # test: they are fixed up front so that a handler that stops looking at one of them is still judged per cell
+            cells = []
+            for part in (None, OTHER):
+                for typ in ("retry", None, OTHER):
+                    base = {("A", (), "participant"): part, ("A", (), "type"): typ}
+                    for c, r in enumerate_cells(lambda c, d, base=base: run(dict(base, **c), d, queued), {}, max_cells=200):
+                        cells.append((dict(base, **c), r))
         except Budget:
             ctx.undecided("C03.enq", w, "receipt for a %s message" % ("queued" if queued else "message that is not queued"), "budget exceeded")
             continue
@@ -272,6 +280,16 @@ def rule_persist(ctx):
     model = c13.StoreModel(scratch)
     c13.rule_commit_replace(scratch, model)
     ctx.adopt(scratch, {"C13.commit": "C03.persist"})
+
+
+def rule_state(ctx):
+    """sent queue, parked stanzas, retry counters, skip list: per layer instance (a second stack in the process must not
+    see - or evict - the first one's queued originals)"""
+    from ..state import per_instance_state
+    n = 0
+    for rel, cn in ((SEND, "AxolotlSendLayer"), (RECV, "AxolotlReceivelayer")):
+        n += per_instance_state(ctx, "C03.state", ctx.repo.cls(rel, cn))
+    ctx.units["C03.state_attrs"] = n
 
 
 def exc_raiser(repo, name):
@@ -508,12 +526,14 @@ def run(ctx):
     ctx.rule("C03.once", "one delivery per decrypt handler with the decrypted proto child", floor=4)
     ctx.rule("C03.skdm", "payload consulted before delivery in both message layers", floor=2)
     ctx.rule("C03.persist", "every key-store write is committed before the store call returns (C13.commit adopted)", floor=9)
+    ctx.rule("C03.state", "queues / parked stanzas / counters of the encryption layers are bound per instance", floor=6)
     ctx.rule("C03.map", "exception mapping and padding in the manager", floor=8)
     ctx.assume("python-axolotl's ratchets, sessions and exceptions behave as documented; conversations, restarts and group fan-out are not decided")
-    rule_taint(ctx)
-    rule_enq(ctx)
-    rule_failures(ctx)
-    rule_once(ctx)
-    rule_skdm(ctx)
-    rule_map(ctx)
-    rule_persist(ctx)
+    ctx.guarded("C03.taint", rule_taint, ctx)
+    ctx.guarded("C03.enq", rule_enq, ctx)
+    ctx.guarded("C03.failures", rule_failures, ctx)
+    ctx.guarded("C03.once", rule_once, ctx)
+    ctx.guarded("C03.skdm", rule_skdm, ctx)
+    ctx.guarded("C03.map", rule_map, ctx)
+    ctx.guarded("C03.persist", rule_persist, ctx)
+    ctx.guarded("C03.state", rule_state, ctx)
